@@ -256,6 +256,7 @@ def gen_cases(tier, seed):
         cases.append({"kind": "whole", "shells": shells, "classes": classes + ["whole:nsh%d" % nsh, "types:" + "".join(tp)],
                       "cost": sum(bases.nfunc(s) for s in shells) ** 4 / 40})
     cases += bases.dup_variants("C04", seed, tier, [c for c in cases if c["kind"] == "whole" and sum(bases.nfunc(s) for s in c["shells"]) <= 13], 2)  # one shell listed twice as the same object
+    cases += bases.argrep_variants("C04", seed, tier, cases, 9, ok=lambda c: c.get("cost", 0) < 500)  # constructor arguments in other in-memory representations
     return cases
 
 
